@@ -387,6 +387,47 @@ impl Check for SmartAccount {
                 steps.push(st);
             }
         }
+        // directed openings for precedence and expiry (a sixth of the runs):
+        //  - three satisfiable rules of one type that differ only in their policy, an older one removed, then a probe: the
+        //    NEWEST remaining rule must be the one whose policy is enforced (order of trial is observable only this way)
+        //  - a rule with an expiry is renamed / gets a signer or policy added and removed again, then the ledger passes the
+        //    expiry: it must not authorise any more
+        if steps.is_empty() && rng.chance(16) {
+            let ext = |k: u8| SRef::Ext(20 + k);
+            let opening: std::vec::Vec<Step> = if rng.chance(50) {
+                let t = CType::Call(rng.below(3) as u8);
+                let gone = 1 + rng.below(2) as u32;
+                let probe = Step::Probe { supplied: vec![Supplied { who: ext(0), genuine: true }], contexts: vec![t] };
+                vec![
+                    Step::AddRule { ctype: t, until: Until::None, signers: vec![ext(0)], policies: vec![0] },
+                    Step::AddRule { ctype: t, until: Until::None, signers: vec![ext(0)], policies: vec![1] },
+                    Step::AddRule { ctype: t, until: Until::None, signers: vec![ext(0)], policies: vec![2] },
+                    probe.clone(),
+                    Step::RemoveRule { id: gone },
+                    probe.clone(),
+                    Step::AddRule { ctype: t, until: Until::None, signers: vec![ext(0)], policies: vec![3] },
+                    Step::RemoveRule { id: 3 - gone },
+                    probe,
+                ]
+            } else {
+                let t = CType::Call(rng.below(3) as u8);
+                let life = 3 + rng.below(10) as i64;
+                let probe = Step::Probe { supplied: vec![Supplied { who: ext(1), genuine: true }], contexts: vec![t] };
+                let touch = match rng.below(3) {
+                    0 => vec![Step::Rename { id: 1, tag: 1 + rng.below(3) as u8 }],
+                    1 => vec![Step::AddSigner { id: 1, s: ext(2) }, Step::RemoveSigner { id: 1, s: ext(2) }],
+                    _ => vec![Step::AddPolicy { id: 1, p: 4 }, Step::RemovePolicy { id: 1, p: 4 }],
+                };
+                let mut v = vec![Step::AddRule { ctype: t, until: Until::Rel(life), signers: vec![ext(1)], policies: vec![] }, probe.clone()];
+                v.extend(touch);
+                v.extend([probe.clone(), Step::Advance { n: life as u32 }, probe.clone(), Step::Advance { n: 1 }, probe]);
+                v
+            };
+            for st in opening {
+                m.apply(&st);
+                steps.push(st);
+            }
+        }
         for _ in 0..nsteps {
             // "re-add after removal / edit": registries must forget the old definition completely
             if let Some((ct, sg, pl)) = previous_def.take() {
@@ -553,6 +594,9 @@ impl Check for SmartAccount {
             e.try_invoke_contract::<Val, soroban_sdk::Error>(&acct, &Symbol::new(e, f), args).map(|r| r.is_ok()).unwrap_or(false)
         };
 
+        // a violated observation clause of the other property does not end the run here: the model keeps describing the
+        // intended behaviour, and what the damaged registry (or verifier) does to the property being decided is still to be seen
+        let mut soft: Option<Violation> = None;
         for (i, s) in steps.iter().enumerate() {
             let mut parked: Option<Violation> = None;
             LOG.with(|l| l.borrow_mut().clear());
@@ -656,42 +700,56 @@ impl Check for SmartAccount {
             // registry view agrees (cheap: count + each rule's stored definition)
             let cnt = ac.get_context_rules_count();
             if cnt as usize != m.rules.len() {
-                return Err(violation("rules.count_eq", "manage", i, format!("count {cnt} model {}", m.rules.len())));
+                self.clause(st, &mut parked, violation("rules.count_eq", "manage", i, format!("count {cnt} model {}", m.rules.len())))?;
             }
             // every stored definition, by id and by type (ids in insertion order), ids never reused
             for r in &m.rules {
                 let got = match ac.try_get_context_rule(&r.id) {
                     Ok(Ok(g)) => g,
-                    other => return Err(violation("rules.getters_eq_model", "get_context_rule", i, format!("rule {} does not answer ({:?}) after {s:?}", r.id, other.err()))),
+                    other => {
+                        self.clause(st, &mut parked, violation("rules.getters_eq_model", "get_context_rule", i, format!("rule {} does not answer ({:?}) after {s:?}", r.id, other.err())))?;
+                        continue;
+                    }
                 };
                 let sg: std::vec::Vec<Signer> = got.signers.iter().collect();
                 let want_sg: std::vec::Vec<Signer> = r.signers.iter().map(|x| signer(*x)).collect();
                 let pl: BTreeSet<Address> = got.policies.iter().collect();
                 let want_pl: BTreeSet<Address> = r.policies.iter().map(|p| pols[*p as usize].clone()).collect();
                 if got.id != r.id || got.name != SString::from_str(e, NAMES[r.name as usize]) || got.context_type != ctx_type(r.ctype) || sg != want_sg || pl != want_pl || got.policies.len() as usize != want_pl.len() || got.valid_until != r.until {
-                    return Err(violation("rules.getters_eq_model", "get_context_rule", i, format!("rule {}: stored definition differs from model {r:?} after {s:?}", r.id)));
+                    self.clause(st, &mut parked, violation("rules.getters_eq_model", "get_context_rule", i, format!("rule {}: stored definition differs from model {r:?} after {s:?}", r.id)))?;
                 }
             }
             for t in [CType::Default, CType::Call(0), CType::Call(1), CType::Call(2), CType::Call(255), CType::Create(0), CType::Create(1)] {
                 let ids: std::vec::Vec<u32> = match ac.try_get_context_rules(&ctx_type(t)) {
                     Ok(Ok(v)) => v.iter().map(|r| r.id).collect(),
-                    other => return Err(violation("rules.getters_eq_model", "get_context_rules", i, format!("type {t:?}: the per-type list does not answer ({:?}) after {s:?}", other.err()))),
+                    other => {
+                        self.clause(st, &mut parked, violation("rules.getters_eq_model", "get_context_rules", i, format!("type {t:?}: the per-type list does not answer ({:?}) after {s:?}", other.err())))?;
+                        continue;
+                    }
                 };
-                let want: std::vec::Vec<u32> = m.rules.iter().filter(|r| r.ctype == t).map(|r| r.id).collect();
+                // compared as sets: C20 speaks of the set; the ORDER in which rules are tried is C03's and is observed through
+                // which rule's policies get enforced (Probe), not through the order of this list
+                let mut ids = ids;
+                ids.sort();
+                let mut want: std::vec::Vec<u32> = m.rules.iter().filter(|r| r.ctype == t).map(|r| r.id).collect();
+                want.sort();
                 if ids != want {
-                    return Err(violation("rules.getters_eq_model", "get_context_rules", i, format!("type {t:?}: ids {ids:?}, model {want:?} after {s:?}")));
+                    self.clause(st, &mut parked, violation("rules.getters_eq_model", "get_context_rules", i, format!("type {t:?}: ids {ids:?}, model {want:?} after {s:?}")))?;
                 }
             }
             if m.rules.len() == 15 { st.hit("probe.max_context_rules_reached"); }
             if m.rules.iter().any(|r| r.signers.len() == 15) { st.hit("probe.max_signers_reached"); }
             if m.rules.iter().any(|r| r.policies.len() == 5) { st.hit("probe.max_policies_reached"); }
             if ac.try_get_context_rule(&m.next_id).is_ok() {
-                return Err(violation("rules.ids_never_reused", "next_id", i, format!("rule id {} exists before being issued", m.next_id)));
+                self.clause(st, &mut parked, violation("rules.ids_never_reused", "next_id", i, format!("rule id {} exists before being issued", m.next_id)))?;
             }
             if let Some(v) = parked.take() {
-                return Err(v);
+                soft.get_or_insert(v);
             }
             st.state(&(m.rules.iter().map(|r| (r.ctype, r.signers.len(), r.policies.len(), r.until.map(|u| u >= m.now))).collect::<std::vec::Vec<_>>(),));
+        }
+        if let Some(v) = soft {
+            return Err(v);
         }
         Ok(())
     }
